@@ -26,6 +26,18 @@ def convert_slice(_slice: Slice) -> Call:
     )
 
 
+def convert_index(index: expr) -> expr:
+    """
+    Make the index of a subscript usable as an ordinary argument:
+    slices (also the ones inside an index tuple like `a[1:2, 3]`) become slice() calls
+    """
+    if isinstance(index, Slice):
+        return convert_slice(index)
+    if isinstance(index, Tuple):
+        return Tuple(elts=[convert_index(elt) for elt in index.elts], ctx=Load())
+    return index
+
+
 def list_wrapper(nodes: list[expr]) -> expr:
     return List(elts=nodes, ctx=Load())
 
